@@ -41,7 +41,7 @@ ASSUMPTIONS = [
 REQUIRED = {"copies": 60, "rechunker_runs": 60, "rechunk_on_load_runs": 40, "per_chunk_merges": 30,
             "metadata_checks": 100, "source_intact_checks": 100, "rows_compared": 1000, "dry_loads": 100,
             "scheduled_rechunker_runs": 100, "scheduling_points": 10000, "multi_target_copies": 15,
-            "per_chunk_refusals": 30}
+            "per_chunk_refusals": 30, "faulted_rechunks": 50}
 UNIT_TIMEOUT = 1500
 COMP = ("blosc", "zstd", "lz4", "bz2")
 
@@ -267,6 +267,37 @@ def run_case(case):
                 add("not-stored", f"after merge_per_chunk_storage r1 is not stored (groups {groups})")
             else:
                 check_dest(add, spec, d1, "r1", out["r1"], cnt, f"per-chunk merge {groups}")
+        elif op["name"] == "rechunker_fault":
+            # the rewrite fails half way (I/O error on the j-th chunk write, serial mode): the caller must get the error
+            # and the source must still be there and load to its rows - also when replacement was requested
+            os.makedirs(d2, exist_ok=True)
+            orig_save = strax.save_file
+            n = {"i": 0}
+
+            def failing_save(f, data, compressor="zstd"):
+                n["i"] += 1
+                if n["i"] == op["fail_at"]:
+                    raise OSError(28, "injected: no space left on device")
+                return orig_save(f, data, compressor)
+
+            strax.save_file = failing_save
+            raised = None
+            try:
+                with common.quiet():
+                    strax.rechunker(source_directory=src_dir, dest_directory=None if op["replace"] else d2, replace=op["replace"],
+                                    compressor=op["compressor"], target_size_mb=(op["target_rows"] * 24 + 12) / 1e6,
+                                    rechunk=True, parallel=False, _timeout=120)
+            except Exception as e:  # noqa: BLE001
+                raised = e
+            finally:
+                strax.save_file = orig_save
+            cnt["faulted_rechunks"] = 1
+            if n["i"] >= op["fail_at"]:
+                if raised is None:
+                    add("swallowed", f"the {op['fail_at']}. chunk write of the rechunker failed but rechunker() returned normally")
+                check_dest(add, spec, d1, "ev", out["ev"], cnt, "source after a failed rechunker run")
+                if not op["replace"] and tree_hash(d1) != before:
+                    add("source-modified", "a failed rechunker run (no replacement requested) changed the source directory")
         elif op["name"] == "per_chunk_window":
             # a plugin that needs neighbours across chunk borders cannot be built chunk by chunk: the request has to
             # be refused (for every window shape), or else the merged result has to equal the directly-made data
@@ -341,6 +372,8 @@ def gen_cases(seed, lo, hi, tier):
             chosen = parts if not q else rng.sample(parts, min(2, len(parts)))
             for g in chosen:
                 ops.append({"name": "per_chunk", "groups": g, "rechunk": rng.random() < 0.5, "takes_chunk_i": rng.random() < 0.5})
+        ops.append({"name": "rechunker_fault", "compressor": rng.choice(COMP), "target_rows": rng.choice([1, 2, 3]),
+                    "replace": rng.random() < 0.6, "fail_at": rng.choice([1, 2, 3])})
         u_ = 400  # the time unit of the layouts
         ops.append({"name": "per_chunk_window", "window": rng.choice([(0, 3 * u_), (3 * u_, 0), (2 * u_, 2 * u_), (0, 0)])})
         for k in range(4 if q else 8):
